@@ -86,6 +86,9 @@ type Doc struct {
 	// generator bookkeeping
 	Features map[string]bool
 	Class    string
+	// shapes that follow a closed container and declare no paint themselves: their paint shows whether
+	// the container's state leaked (judged under kind "state-leak-after-element:…")
+	Probes map[*Node]bool
 }
 
 func num(f float64) string { return strconv.FormatFloat(f, 'f', -1, 64) }
